@@ -23,21 +23,22 @@ import (
 type Param struct{ Name, Type string }
 
 type Clause struct {
-	Kind   string // requires ensures ensures_panic invariant decreases assigns axiom lemma
-	Label  string
-	Text   string
-	Expr   string
-	Bound  []Param
-	FnName string
-	Names  []string // parameter names of the generated function, in order
-	Fn     *ssa.Function
-	Desig  string // for assigns: lvalue | elems | fields | any | all | nothing
-	AnyT   string // any(T.f)
-	AnyF   string
-	Loop   int
-	File   string
-	Line   int
-	Owner  *Contract
+	Kind             string // requires ensures ensures_panic invariant decreases assigns axiom lemma
+	Label            string
+	Text             string
+	Expr             string
+	Bound            []Param
+	FnName           string
+	Names            []string // parameter names of the generated function, in order
+	Fn               *ssa.Function
+	Desig            string // for assigns: lvalue | elems | fields | any | all | nothing
+	AnyT             string // any(T.f)
+	AnyF             string
+	Loop             int
+	ObsName, ObsType string
+	File             string
+	Line             int
+	Owner            *Contract
 }
 
 type LoopSpec struct {
@@ -48,37 +49,44 @@ type LoopSpec struct {
 }
 
 type Contract struct {
-	PkgDir  string
-	PkgName string
-	Func    string // RelString form, or "iface T.M"
-	IsIface bool
+	ReplayAssume                    []*Clause
+	IfaceOf                         *Contract // implementation checked against this interface contract
+	SelfType                        string
+	PkgDir                          string
+	PkgName                         string
+	Func                            string // RelString form, or "iface T.M"
+	IsIface                         bool
 	Requires, Ensures, EnsuresPanic []*Clause
-	Assigns []*Clause
-	Loops   map[int]*LoopSpec
-	Flags   map[string]bool
-	Ghost   []Param
-	File    string
-	Line    int
+	Assigns                         []*Clause
+	Loops                           map[int]*LoopSpec
+	Flags                           map[string]bool
+	Ghost                           []Param
+	Props                           []string
+	Replay                          string
+	Observe                         []*Clause
+	File                            string
+	Line                            int
 	// resolved
-	Fn     *ssa.Function
-	Params []Param // receiver + params
+	Fn      *ssa.Function
+	Params  []Param // receiver + params
 	Results []Param
-	Errors []string
+	Errors  []string
 }
 
 type ContractSet struct {
-	ByFunc  map[string]*Contract // key: pkgpath + "." + Func
-	Axioms  []*Clause
-	Stable  []string // "T.f"
+	CreateInv   [][3]string          // pkgDir, type name, spec function
+	ByFunc      map[string]*Contract // key: pkgpath + "." + Func
+	Axioms      []*Clause
+	Stable      []string // "T.f"
 	JSPreserved []string // "T.f"
-	All     []*Contract
-	Files   []string
-	Errors  []string
-	Scan    []string // occurrences of assume/trusted/axiom for the evidence
+	All         []*Contract
+	Files       []string
+	Errors      []string
+	Scan        []string // occurrences of assume/trusted/axiom for the evidence
 }
 
-var clauseRe = regexp.MustCompile(`^(requires|ensures_panic|ensures|assigns|safe|pure|trusted|inline|uninterpreted|overflow-checked|wrap64|nopanic|ghost)\b\s*(.*)$`)
-var labelRe = regexp.MustCompile(`\s*\[([A-Za-z0-9_:.#+\-]+)\]\s*$`)
+var clauseRe = regexp.MustCompile(`^(requires|ensures_panic|ensures|assigns|safe|pure|trusted|inline|uninterpreted|overflow-checked|wrap64|nopanic|sweep-callers|ghost|props|replay_assume|replay|observe)\b\s*(.*)$`)
+var labelRe = regexp.MustCompile(`\s+\[([A-Za-z0-9_:.#+\-]+)\]\s*$`)
 
 // parseContractFile reads one contract file.
 func parseContractFile(cs *ContractSet, path, pkgDir string) {
@@ -146,10 +154,19 @@ func parseContractFile(cs *ContractSet, path, pkgDir string) {
 			c.Owner = &Contract{PkgDir: pkgDir, PkgName: pkgName, Func: "axiom", File: path}
 			cs.Axioms = append(cs.Axioms, c)
 			cs.Scan = append(cs.Scan, fmt.Sprintf("axiom %s (%s:%d)", c.Text, filepath.Base(path), ln+1))
+		case strings.HasPrefix(l, "createinv "):
+			f := strings.Fields(strings.TrimPrefix(l, "createinv "))
+			if len(f) == 2 {
+				cs.CreateInv = append(cs.CreateInv, [3]string{pkgDir, f[0], f[1]})
+			}
 		case strings.HasPrefix(l, "stable "):
-			cs.Stable = append(cs.Stable, strings.Fields(strings.TrimPrefix(l, "stable "))...)
+			for _, f := range strings.Fields(strings.TrimPrefix(l, "stable ")) {
+				cs.Stable = append(cs.Stable, pkgDir+"|"+f)
+			}
 		case strings.HasPrefix(l, "jspreserved "):
-			cs.JSPreserved = append(cs.JSPreserved, strings.Fields(strings.TrimPrefix(l, "jspreserved "))...)
+			for _, f := range strings.Fields(strings.TrimPrefix(l, "jspreserved ")) {
+				cs.JSPreserved = append(cs.JSPreserved, pkgDir+"|"+f)
+			}
 			cs.Scan = append(cs.Scan, fmt.Sprintf("assumed: script execution preserves %s (%s:%d)", strings.TrimPrefix(l, "jspreserved "), filepath.Base(path), ln+1))
 		case strings.HasPrefix(l, "loop "):
 			if cur == nil {
@@ -203,6 +220,27 @@ func parseContractFile(cs *ContractSet, path, pkgDir string) {
 				}
 			case "ghost":
 				cur.Ghost = append(cur.Ghost, parseParams(m[2])...)
+			case "props":
+				cur.Props = append(cur.Props, strings.Fields(m[2])...)
+			case "replay":
+				cur.Replay = strings.TrimSpace(m[2])
+			case "replay_assume":
+				cur.ReplayAssume = append(cur.ReplayAssume, mk("replay_assume", m[2]))
+			case "observe":
+				// observe <name> <type> = <expr>
+				eq := strings.Index(m[2], "=")
+				if eq < 0 {
+					cs.Errors = append(cs.Errors, fmt.Sprintf("%s:%d: bad observe clause", path, ln+1))
+					continue
+				}
+				ps := parseParams(strings.TrimSpace(m[2][:eq]))
+				if len(ps) != 1 {
+					cs.Errors = append(cs.Errors, fmt.Sprintf("%s:%d: bad observe clause", path, ln+1))
+					continue
+				}
+				c := mk("observe", strings.TrimSpace(m[2][eq+1:]))
+				c.ObsName, c.ObsType = ps[0].Name, ps[0].Type
+				cur.Observe = append(cur.Observe, c)
 			default:
 				cur.Flags[m[1]] = true
 				if m[1] == "trusted" {
@@ -392,13 +430,13 @@ type srcFunc struct {
 }
 
 type srcPkg struct {
-	dir     string
-	name    string
-	fset    *token.FileSet
-	funcs   map[string]*srcFunc // RelString -> decl
-	ifaces  map[string]*ast.InterfaceType
+	dir       string
+	name      string
+	fset      *token.FileSet
+	funcs     map[string]*srcFunc // RelString -> decl
+	ifaces    map[string]*ast.InterfaceType
 	ifaceFile map[string]*ast.File
-	imports map[string]string // union over files: name -> path
+	imports   map[string]string // union over files: name -> path
 }
 
 func exprString(fset *token.FileSet, e ast.Expr) string {
@@ -609,6 +647,13 @@ func (cs *ContractSet) genOverlay(sp *srcPkg, contracts []*Contract, axioms []*C
 			if ls.Decreases != nil {
 				do(ls.Decreases, ps)
 			}
+		}
+		for _, cl := range c.ReplayAssume {
+			do(cl, base)
+		}
+		for _, cl := range c.Observe {
+			cl.Expr = cl.Text
+			emit(cl, base, cl.ObsType, cl.Text)
 		}
 		for _, cl := range c.Assigns {
 			t := strings.TrimSpace(cl.Text)
